@@ -133,10 +133,10 @@ def df_rows(df):
     return rows
 
 
-def answers(atoms, base, queries, cfg, weakly=False):
+def answers(atoms, base, queries, cfg, weakly=False, **kw):
     """-> ('ok', [bool...]) or ('exc', symptom, message)"""
     try:
-        rows = infer(atoms, base, queries, cfg, weakly=weakly)
+        rows = infer(atoms, base, queries, cfg, weakly=weakly, **kw)
     except BaseException as e:  # noqa: BLE001 - classified, never swallowed silently
         if isinstance(e, (KeyboardInterrupt, SystemExit, MemoryError)):
             raise
